@@ -95,10 +95,14 @@ class SymEnv:
         self.ctx.assume(z3.Or(v.e == 0, v.e == 1))
         return v
 
-    def reals(self, name, shape, **kw):
+    def reals(self, name, shape, floatable=False, **kw):
         a = np.empty(shape, dtype=object)
         for idx in np.ndindex(a.shape):
             a[idx] = self.real(name + '_' + '_'.join(map(str, idx)), **kw)
+        if floatable:
+            # the library calls .astype('float64') on these contexts (scale=True): keep them symbolic
+            from .npx import symarray
+            return symarray(a)
         return a
 
     def binaries(self, name, n):
@@ -295,7 +299,7 @@ class ConcEnv:
     def binary(self, name):
         return float(self._get(name))
 
-    def reals(self, name, shape, **kw):
+    def reals(self, name, shape, floatable=False, **kw):
         a = np.empty(shape, dtype=float)
         for idx in np.ndindex(a.shape):
             a[idx] = self.real(name + '_' + '_'.join(map(str, idx)))
